@@ -22,6 +22,7 @@ package c09
 
 import (
 	"fmt"
+	"go/constant"
 	"go/token"
 	"go/types"
 	"sort"
@@ -39,10 +40,30 @@ const fieldCtlFile = "modeling/marching/zz_verif_control_c09_field.go"
 const fieldControls = `package marching
 
 import (
+	"math"
+
 	"github.com/EliCDavis/polyform/math/geometry"
 	"github.com/EliCDavis/polyform/trees"
 	"github.com/EliCDavis/vector/vector3"
 )
+
+// must fire FIELD-OUT: +Inf where no member contains the point (through a helper and a negation)
+func verifControlFieldBadInf(boxes []geometry.AABB) func(vector3.Float64) float64 {
+	elems := make([]trees.Element, len(boxes))
+	for i := range boxes {
+		elems[i] = trees.BoundingBoxElement(boxes[i])
+	}
+	tree := trees.NewOctree(elems)
+	return func(p vector3.Float64) float64 {
+		s := verifControlFieldFar()
+		for _, h := range tree.ElementsContainingPoint(p) {
+			s = math.Min(s, boxes[h].Size().X())
+		}
+		return s
+	}
+}
+
+func verifControlFieldFar() float64 { return -math.Inf(-1) }
 
 // must stay silent: element id subscripts, other idioms than the repository (indexed build from a
 // range copy, range over the hits, hoisted id, helper taking table and id, pre-filtered local slice)
@@ -174,7 +195,10 @@ type fi struct {
 	ctl       map[string][]fiFinding // control function name -> findings
 	ctlSeen   map[string]bool
 	cur       *ssa.Function // querying function being analysed (attribution of findings)
-	ord       map[string]int
+	sp        *ssa.Package
+	// polarity of the march (POL-1 / TAB-3): a sample below the threshold is inside
+	belowIsInside bool
+	ord           map[string]int
 }
 
 func (x *fi) top(fn *ssa.Function) *ssa.Function {
@@ -201,7 +225,7 @@ func (x *fi) rec(at *ssa.Function, f fiFinding) {
 	}
 }
 
-func fieldIdxRules(c *props.Ctx, sp *ssa.Package) {
+func fieldIdxRules(c *props.Ctx, sp *ssa.Package, belowIsInside bool) {
 	tp := c.P.SSAPkg("trees")
 	if tp == nil {
 		c.R.Failf("anchor package trees (spatial queries used by the member-combining fields) not found")
@@ -209,7 +233,7 @@ func fieldIdxRules(c *props.Ctx, sp *ssa.Package) {
 	}
 	x := &fi{c: c, treesPath: tp.Pkg.Path(), fns: sortedFuncs(c, sp),
 		callers: map[*ssa.Function][]ssa.CallInstruction{}, closures: map[*ssa.Function][]*ssa.MakeClosure{},
-		capDone: map[string]bool{}, ctl: map[string][]fiFinding{}, ctlSeen: map[string]bool{}, ord: map[string]int{}}
+		capDone: map[string]bool{}, ctl: map[string][]fiFinding{}, ctlSeen: map[string]bool{}, ord: map[string]int{}, sp: sp, belowIsInside: belowIsInside}
 	for _, fn := range x.fns {
 		ssau.AllInstrs(fn, func(in ssa.Instruction) {
 			switch t := in.(type) {
@@ -255,6 +279,7 @@ func fieldIdxRules(c *props.Ctx, sp *ssa.Package) {
 	if treeOK {
 		c.R.Floor("FIELD-IDX", 4)
 		c.R.Floor("FIELD-ALL", 2)
+		c.R.Floor("FIELD-OUT", 3)
 	}
 }
 
@@ -689,6 +714,9 @@ func (x *fi) analyseQuery(g *ssa.Function, q *ssa.Call) {
 	st.scan(g, nil, 0)
 	if !single && st.judged > 0 {
 		st.coverage()
+	}
+	if st.judged > 0 {
+		x.outsideValues(g, st)
 	}
 }
 
@@ -1697,6 +1725,7 @@ func (x *fi) controls() {
 		{"verifControlFieldBadOffset", "FIELD-IDX", true},
 		{"verifControlFieldBadBuild", "FIELD-IDX", true},
 		{"verifControlFieldBadCapture", "FIELD-CAP", true},
+		{"verifControlFieldBadInf", "FIELD-OUT", true},
 	} {
 		fs := x.ctl[w.name]
 		fired, holds := 0, 0
@@ -1890,4 +1919,289 @@ func (s *fiScan) coverage() {
 		f.msg = fmt.Sprintf("the hit at position %d of the list %s answers is never read (positions read: %s): a member whose domain contains the sample point is left out of the combined field whenever the list is longer than %d", pos, fiCallee(s.q), strings.Join(desc, " ∪ "), pos)
 	}
 	x.rec(s.g, f)
+}
+
+// ---------------------------------------------------------------------------
+// FIELD-OUT: what a member-combining field reports where no member applies
+//
+// SYM-ALG's interpolant P[a] + (P[b]−P[a])·(t−C[a])/(C[b]−C[a]) is an identity over the reals: it holds for
+// finite samples only. A default of +Inf keeps the sign test right (the corner is outside) but makes
+// (t−C[a])/(C[b]−C[a]) = Inf/Inf = NaN whenever the infinite sample is corner a of the edge: NaN vertices, an
+// open surface after the weld. So every constant-like value such a function can return must be finite, and on
+// the outside of the march's sign convention.
+
+type foLeaf struct {
+	pos    token.Pos
+	desc   string
+	finite bool
+	sign   int // of the value (after negations), meaningful when finite
+}
+
+func (x *fi) outsideValues(g *ssa.Function, st *fiScan) {
+	var leaves []foLeaf
+	seen := map[ssa.Value]bool{}
+	var walk func(v ssa.Value, neg, arith bool, depth int, at token.Pos)
+	walk = func(v ssa.Value, neg, arith bool, depth int, at token.Pos) {
+		if v == nil || depth > 12 {
+			return
+		}
+		if _, isConst := v.(*ssa.Const); !isConst {
+			if seen[v] {
+				return
+			}
+			seen[v] = true
+		}
+		if in, ok := v.(ssa.Instruction); ok && in.Pos().IsValid() {
+			at = in.Pos()
+		}
+		switch t := v.(type) {
+		case *ssa.Const:
+			if arith || t.Value == nil || (t.Value.Kind() != constant.Float && t.Value.Kind() != constant.Int) {
+				return
+			}
+			sg := constant.Sign(t.Value)
+			if neg {
+				sg = -sg
+			}
+			leaves = append(leaves, foLeaf{at, t.Value.String(), true, sg})
+		case *ssa.Phi:
+			skip := st.foldIdentity(t)
+			for i, e := range t.Edges {
+				if i == skip {
+					continue
+				}
+				walk(e, neg, arith, depth+1, at)
+			}
+		case *ssa.Convert:
+			walk(t.X, neg, arith, depth+1, at)
+		case *ssa.ChangeType:
+			walk(t.X, neg, arith, depth+1, at)
+		case *ssa.BinOp:
+			walk(t.X, neg, true, depth+1, at)
+			walk(t.Y, neg, true, depth+1, at)
+		case *ssa.UnOp:
+			switch t.Op {
+			case token.SUB:
+				walk(t.X, !neg, arith, depth+1, at)
+			case token.MUL:
+				switch a := t.X.(type) {
+				case *ssa.Global:
+					if iv := x.globalInit(a); iv != nil {
+						walk(iv, neg, arith, depth+1, at)
+					}
+				case *ssa.FreeVar, *ssa.Alloc:
+					if cell := x.cellOf(a); cell != nil {
+						if cv := x.cellValue(cell); cv != nil {
+							walk(cv, neg, arith, depth+1, at)
+						}
+					}
+				}
+			}
+		case *ssa.Call:
+			if b := ssau.Builtin(t); b == "min" || b == "max" {
+				for _, a := range t.Call.Args {
+					walk(a, neg, arith, depth+1, at)
+				}
+				return
+			}
+			o := ssau.CalleeObj(t)
+			if o != nil && o.Pkg() != nil && o.Pkg().Path() == "math" {
+				switch o.Name() {
+				case "Inf", "NaN":
+					leaves = append(leaves, foLeaf{at, "math." + o.Name() + "(…)", false, 0})
+				case "Min", "Max":
+					for _, a := range t.Call.Args {
+						walk(a, neg, arith, depth+1, at)
+					}
+				default:
+					for _, a := range t.Call.Args {
+						walk(a, neg, true, depth+1, at)
+					}
+				}
+				return
+			}
+			// an in-package helper with one return: look at what it returns (constants only matter)
+			if callee := t.Call.StaticCallee(); callee != nil && callee.Pkg == g.Pkg {
+				if ret := singleReturn(callee); ret != nil && len(ret.Results) == 1 {
+					walk(ret.Results[0], neg, arith, depth+1, at)
+				}
+			}
+			// anything else (a member function, an sdf) is a member value: not judged
+		}
+	}
+	for _, b := range g.Blocks {
+		if ret, ok := b.Instrs[len(b.Instrs)-1].(*ssa.Return); ok && len(ret.Results) == 1 {
+			if bt, ok := ret.Results[0].Type().Underlying().(*types.Basic); ok && bt.Info()&types.IsFloat != 0 {
+				walk(ret.Results[0], false, false, 0, ret.Pos())
+			}
+		}
+	}
+	sort.SliceStable(leaves, func(i, j int) bool { return posLess(x.c.P.Fset, leaves[i].pos, leaves[j].pos) })
+	name := x.c.P.FuncName(g)
+	for i, l := range leaves {
+		f := fiFinding{rule: "FIELD-OUT", construct: fmt.Sprintf("%s→default#%d", name, i+1), pos: l.pos}
+		outsideSign := 1
+		side := "not below"
+		if !x.belowIsInside {
+			outsideSign = -1
+			side = "not above"
+		}
+		switch {
+		case !l.finite:
+			f.verdict = ob.Violation
+			f.msg = fmt.Sprintf("the field can report %s where no member applies: the sign test still says outside, but the vertex interpolation (threshold − C[a]) / (C[b] − C[a]) — the identity SYM-ALG decides holds for finite samples only — becomes Inf/Inf = NaN whenever this sample is corner a of a crossing edge: NaN vertices, the weld collapses them and the surface is left open. A finite constant on the outside of the threshold is required", l.desc)
+		case l.sign*outsideSign < 0:
+			f.verdict = ob.Violation
+			f.msg = fmt.Sprintf("the field can report the constant %s where no member applies; the march classifies a sample %s the threshold as outside, so for threshold 0 everything outside the members' domains is solid", l.desc, side)
+		default:
+			f.verdict = ob.Holds
+			f.facts = []string{fmt.Sprintf("constant %s: finite (the interpolation identity of SYM-ALG applies) and %s a threshold of 0 (outside)", l.desc, side)}
+		}
+		x.rec(g, f)
+	}
+}
+
+// globalInit: the one value a package-level variable is initialised with (nil when it is assigned elsewhere too).
+func (x *fi) globalInit(g *ssa.Global) ssa.Value {
+	var val ssa.Value
+	n := 0
+	init := x.sp.Func("init")
+	for _, fn := range x.fns {
+		if fn == init {
+			continue
+		}
+		ssau.AllInstrs(fn, func(in ssa.Instruction) {
+			if st, ok := in.(*ssa.Store); ok && st.Addr == ssa.Value(g) {
+				n++
+				val = st.Val
+			}
+		})
+	}
+	if init != nil {
+		ssau.AllInstrs(init, func(in ssa.Instruction) {
+			if st, ok := in.(*ssa.Store); ok && st.Addr == ssa.Value(g) {
+				n++
+				val = st.Val
+			}
+		})
+	}
+	if n != 1 {
+		return nil
+	}
+	return val
+}
+
+// foldIdentity: phi is the accumulator of `acc := ±Inf; for … over the hits { acc = math.Min/Max(acc, …) }` at a
+// place where the hit list is known to be non-empty and the loop runs at least once: the infinite start value
+// is the identity element of the fold and never leaves the loop. Returns the index of that edge, or -1.
+func (s *fiScan) foldIdentity(phi *ssa.Phi) int {
+	if s == nil || s.single || len(phi.Edges) != 2 {
+		return -1
+	}
+	b := phi.Block()
+	initIdx := -1
+	for i, p := range b.Preds {
+		if !b.Dominates(p) {
+			if initIdx >= 0 {
+				return -1
+			}
+			initIdx = i
+		}
+	}
+	if initIdx < 0 {
+		return -1
+	}
+	back, _ := phi.Edges[1-initIdx].(*ssa.Call)
+	if back == nil {
+		return -1
+	}
+	op := ssau.Builtin(back)
+	if o := ssau.CalleeObj(back); o != nil && o.Pkg() != nil && o.Pkg().Path() == "math" {
+		op = strings.ToLower(o.Name())
+	}
+	if op != "min" && op != "max" {
+		return -1
+	}
+	uses := false
+	for _, a := range back.Call.Args {
+		if a == ssa.Value(phi) {
+			uses = true
+		}
+	}
+	// the start value: math.Inf(+1) for min, math.Inf(-1) for max
+	iv := phi.Edges[initIdx]
+	neg := false
+	for {
+		if u, ok := iv.(*ssa.UnOp); ok && u.Op == token.SUB {
+			neg = !neg
+			iv = u.X
+			continue
+		}
+		if c, ok := iv.(*ssa.Convert); ok {
+			iv = c.X
+			continue
+		}
+		break
+	}
+	ic, _ := iv.(*ssa.Call)
+	if !uses || ic == nil {
+		return -1
+	}
+	if o := ssau.CalleeObj(ic); o == nil || o.Pkg() == nil || o.Pkg().Path() != "math" || o.Name() != "Inf" || len(ic.Call.Args) != 1 {
+		return -1
+	}
+	k, ok := ssau.ConstInt(ic.Call.Args[0])
+	if !ok {
+		return -1
+	}
+	positive := (k >= 0) != neg
+	if positive != (op == "min") {
+		return -1
+	}
+	// the hit list is not empty here …
+	nonEmpty := false
+	for _, blk := range b.Parent().Blocks {
+		iff, ok := blk.Instrs[len(blk.Instrs)-1].(*ssa.If)
+		if !ok {
+			continue
+		}
+		cmp, ok := iff.Cond.(*ssa.BinOp)
+		if !ok {
+			continue
+		}
+		kk, isK := ssau.ConstInt(cmp.Y)
+		if !isK || !s.lenOfResult(cmp.X) {
+			continue
+		}
+		if root, off := fiPeel(cmp.X); off != 0 || root == nil {
+			continue
+		}
+		var succ *ssa.BasicBlock
+		switch {
+		case cmp.Op == token.EQL && kk == 0, cmp.Op == token.LSS && kk == 1, cmp.Op == token.LEQ && kk == 0:
+			succ = blk.Succs[1]
+		case cmp.Op == token.NEQ && kk == 0, cmp.Op == token.GTR && kk == 0, cmp.Op == token.GEQ && kk == 1:
+			succ = blk.Succs[0]
+		}
+		if succ != nil && len(succ.Preds) == 1 && succ.Dominates(b) {
+			nonEmpty = true
+		}
+	}
+	if !nonEmpty {
+		return -1
+	}
+	// … and the loop over it runs at least once
+	for _, in := range b.Instrs {
+		cp, ok := in.(*ssa.Phi)
+		if !ok {
+			break
+		}
+		if cp == phi {
+			continue
+		}
+		if c0, hiOff, ok := s.counterRange(cp); ok && c0 <= hiOff {
+			return initIdx
+		}
+	}
+	return -1
 }
